@@ -6,6 +6,7 @@ package main
 
 import (
 	"fmt"
+	"math"
 	"sort"
 	"strings"
 
@@ -217,7 +218,7 @@ func ordered(in []rec) {
 type keySpec struct {
 	name string
 	add  func(b fpgo.SortDescriptorsBuilder[Row], asc bool) fpgo.SortDescriptorsBuilder[Row]
-	cmp  func(a, b Row) int // natural order of the key
+	cmp  func(a, b Row) int                      // natural order of the key
 	desc func(asc bool) fpgo.SortDescriptor[Row] // the same key as a descriptor object (for ThenWith)
 }
 
@@ -628,6 +629,127 @@ func localTypes() {
 	}
 }
 
+// extremeKeys: integer keys of the largest magnitudes (a comparison done by subtraction overflows), all lists
+// up to length 3 over {MinInt64+5, -1, 0, MaxInt64-3}, both key routes and directions.
+func extremeKeys() {
+	vals := []int64{math.MinInt64 + 5, -1, 0, math.MaxInt64 - 3}
+	type R struct {
+		K   fpgo.ComparableOrdered[int64]
+		Tag int
+	}
+	var lists [][]R
+	var gen func(cur []R, n int)
+	gen = func(cur []R, n int) {
+		if len(cur) == n {
+			l := append([]R{}, cur...)
+			for i := range l {
+				l[i].Tag = i
+			}
+			lists = append(lists, l)
+			return
+		}
+		for _, v := range vals {
+			gen(append(cur, R{K: fpgo.NewComparableOrdered(v)}), n)
+		}
+	}
+	for n := 2; n <= 3; n++ {
+		gen(nil, n)
+	}
+	for _, asc := range []bool{true, false} {
+		for _, route := range []string{"field", "transformer"} {
+			b := fpgo.NewSortDescriptorsBuilder[R]()
+			if route == "field" {
+				b = b.ThenWithFieldName("K", asc)
+			} else {
+				b = b.ThenWithTransformerFunctor(func(x R) fpgo.Comparable[interface{}] { return x.K }, asc)
+			}
+			for _, in := range lists {
+				evals++
+				inputs++
+				var out []R
+				if p := lib.Catch(func() { out = b.ToSortedList(in...) }); p != "" {
+					bad("ToSortedList", "panic", "int64 keys %v: %s", in, p)
+					continue
+				}
+				okPerm := len(out) == len(in)
+				for i := 0; okPerm && i+1 < len(out); i++ {
+					a, c := out[i].K.Val, out[i+1].K.Val
+					if (asc && a > c) || (!asc && a < c) {
+						bad("ToSortedList", "lexicographic|extreme-int64-keys", "keys %v sorted %s (ascending=%v) give %v", in, route, asc, out)
+						break
+					}
+				}
+				if !okPerm {
+					bad("ToSortedList", "permutation", "keys %v: %d elements returned", in, len(out))
+				}
+			}
+		}
+	}
+}
+
+// mixedDynamicTypes: rows held as interface{} values of two struct types that keep the key field at different
+// positions, sorted by field name in one list.
+func mixedDynamicTypes() {
+	type A struct {
+		K1  fpgo.ComparableOrdered[int]
+		Tag int
+	}
+	type B struct {
+		Tag int
+		Pad fpgo.ComparableOrdered[int]
+		K1  fpgo.ComparableOrdered[int]
+	}
+	key := func(x interface{}) int {
+		switch r := x.(type) {
+		case A:
+			return r.K1.Val
+		case B:
+			return r.K1.Val
+		case *A:
+			return r.K1.Val
+		}
+		return -99
+	}
+	for code := 0; code < 81; code++ { // four rows, each one of: A / B / *A, key 0..2 (3^4 type patterns x a fixed key pattern)
+		var in []interface{}
+		c := code
+		for i := 0; i < 4; i++ {
+			k := (i*2 + 1) % 3
+			switch c % 3 {
+			case 0:
+				in = append(in, A{K1: fpgo.NewComparableOrdered(k), Tag: i})
+			case 1:
+				in = append(in, B{Tag: i, Pad: fpgo.NewComparableOrdered(9 - k), K1: fpgo.NewComparableOrdered(k)})
+			default:
+				in = append(in, &A{K1: fpgo.NewComparableOrdered(k), Tag: i})
+			}
+			c /= 3
+		}
+		for _, asc := range []bool{true, false} {
+			evals++
+			inputs++
+			var out []interface{}
+			if p := lib.Catch(func() {
+				out = fpgo.NewSortDescriptorsBuilder[interface{}]().ThenWithFieldName("K1", asc).ToSortedList(in...)
+			}); p != "" {
+				bad("ToSortedList", "panic", "rows of mixed dynamic types (pattern %d) by field K1: %s", code, p)
+				continue
+			}
+			for i := 0; i+1 < len(out); i++ {
+				a, c2 := key(out[i]), key(out[i+1])
+				if len(out) != len(in) || (asc && a > c2) || (!asc && a < c2) {
+					var ks []int
+					for _, x := range out {
+						ks = append(ks, key(x))
+					}
+					bad("ToSortedList", "lexicographic|mixed-dynamic-types", "rows of mixed dynamic types (pattern %d) by field K1 ascending=%v: keys come out as %v", code, asc, ks)
+					break
+				}
+			}
+		}
+	}
+}
+
 func main() {
 	r = lib.NewReport("C19")
 	maxLen, rowLen := 4, 3
@@ -703,6 +825,8 @@ func main() {
 	descriptors(rowLen)
 	fieldNameTypes(rowLen)
 	localTypes()
+	extremeKeys()
+	mixedDynamicTypes()
 	// once more in the same process, after every record type, field name and stack has been sorted once (a
 	// descriptor's meaning must not depend on what was sorted before); the row lists one element shorter
 	skipLongRows = true
